@@ -556,6 +556,13 @@ pub mod store {
 		Ok(())
 	}
 
+	/// Flushes the oldest immutable memtable only (what one step of the background flush task does).
+	pub fn flush_oldest(tree: &Tree) -> std::result::Result<bool, String> {
+		let r = tree.core.inner.flush_oldest_immutable_to_sst().map_err(|e| e.to_string())?;
+		tree.core.write_stall.signal_work_done();
+		Ok(r.is_some())
+	}
+
 	/// One compaction round with the leveled strategy built from the tree's options.
 	pub fn compact_round(tree: &Tree) -> std::result::Result<(), String> {
 		let strategy: Arc<dyn CompactionStrategy> =
